@@ -167,6 +167,11 @@ impl ExecutorInner {
         // In case this executor is nested in another one, reset the counter of in-flight messages.
         let msg_count_stash = channel::THREAD_MSG_COUNT.replace(self.context.msg_count);
 
+        // For the same reason, stash the identifier of the model that is
+        // currently polled by the outer executor on this thread, if any, so it
+        // can still be reported if that model panics after this call returns.
+        let model_id_stash = CURRENT_MODEL_ID.take();
+
         let result = SIMULATION_CONTEXT.set(&self.simulation_context, || {
             ACTIVE_TASKS.set(&self.active_tasks, || {
                 EXECUTOR_CONTEXT.set(&self.context, || {
@@ -190,10 +195,11 @@ impl ExecutorInner {
 
         // Return the panic payload, if any.
         if let Err(payload) = result {
-            let model_id = CURRENT_MODEL_ID.take();
+            let model_id = CURRENT_MODEL_ID.replace(model_id_stash);
 
             return Err(ExecutorError::Panic(model_id, payload));
         }
+        CURRENT_MODEL_ID.set(model_id_stash);
 
         // Check for unprocessed messages.
         self.context.msg_count = channel::THREAD_MSG_COUNT.replace(msg_count_stash);
